@@ -143,6 +143,12 @@ def run(c, chk):
                          % (s, what, 'does not attach the pending annotation' if not attached else 'does not clear the pending annotation'),
                          witness=[tr.describe()])
     pending_survives(c, chk, model)
+    if not isinstance(chk, report.SubCheck):
+        from . import c11 as _c11
+        chk.rule('R15.8', 'the comment getter finds the option like every by-name call does (one resolver: rule R11.1 of C11), also through a multi section')
+        sub11 = report.SubCheck(chk, 'R15.8', 'C11', only=('R11.1',))
+        _c11.run(c, sub11)
+        sub11.done('name resolution')
     marker_only(c, chk)
     attach_function(c, chk)
     printer_emits(c, chk)
